@@ -147,6 +147,17 @@ def points(tier: str) -> List[Dict[str, Any]]:
                 for step in (0.75, 0.85):
                     pts.append({"delay": delay, "forced": None, "jitter": 0.0, "types": "a", "peer": {"before": before, "step": step},
                                 "events": [(20_000, ("ptr", X, ttl))]})
+    # a record re-announced with a shorter TTL whose new 75 % instant lies a little BEFORE the query armed for the old copy,
+    # while another type's refresh falls due right before that armed query (the minimum spacing pushes it further)
+    for delay in (10_000, 60_000):
+        for early_by in (0.5, 0.9):
+            for other_before in (0.1, 0.5):
+                # X learned at 1 s (TTL 4500: armed at 1 s + 3375 s); re-announced with TTL 1200 so that 75 % of the new copy
+                # falls early_by x delay before the armed instant; Z (other type) learned other_before x delay before X
+                t_re = int(3_375_000 - early_by * delay - 900_000)
+                pts.append({"delay": delay, "forced": None, "jitter": 0.0, "types": "ab",
+                            "events": [(20_000, ("ptr", Z, 4500)), (int(other_before * delay), ("ptr", X, 4500)),
+                                       (t_re, ("ptr", X, 1200))]})
     # late wake-ups: two records learned a few seconds apart, the loop stalled across the first one's refresh instant
     for delay in (10_000, 60_000):
         for second_after in (3_000, 7_000, delay):
